@@ -30,17 +30,26 @@ RULE = ('exhaustive box: every string over {A,C,-} up to length 5 (thorough; see
         'methods against the Gallina list functions; FEATURE TYPES: seq[name], seq.sl(gap=)[name], seqs[:, name], seqs[name], seqs[i, name] '
         'with feature lists whose types contain one another (gene/pseudogene, RNA/mRNA/tRNA, exon/exon_junction, empty type, type None), '
         'any letter case, absent names; basket-level .str: the kind of result (basket itself / list) must be the same for 0, 1 and '
-        'several sequences and a returned basket must be chainable')
+        'several sequences and a returned basket must be chainable; ROUND 7: STR QUERIES (op strq; 160 random + 40 boxes in quick, all '
+        '341 strings over {A,-,space,newline}^<=4 in thorough): raw residue strings with every ASCII white-space / line-break character, '
+        'CRLF, lower case x split/rsplit (8 separators incl. None and "" x maxsplit None,0..3; positional and keyword forms), '
+        'splitlines(keepends), isalpha, isascii, encode (8 argument forms), startswith/endswith with tuples, removeprefix/removesuffix '
+        '(own prefixes/suffixes, over-long, wrong case), translate(maketrans(x, y[, z])) with duplicate keys, deletions and length '
+        'mismatch; the same kinds also as steps of the object-store histories (also basket level); SLICING STEPS in the object stores '
+        '(slice / inplace slice of objects that hold lower case, plain and gap-aware with gap sets "-", "n", "-n", "", any step: the new '
+        'object joins the store and is edited / compared later); gap-aware subscripts with ANY step are compared with the model in '
+        'every stream (boxes, random, histories, baskets)')
 TRUSTED = ['CPython 3.12 str/list subscripting as modelled in coq/lib/C04_PySlice.v (PySlice_Unpack/AdjustIndices, list_subscript, '
            'list_ass_subscript), compared with the interpreter on every case',
-           'the ~35 str methods themselves are CPython\'s; only sugar\'s wrappers around them are proved (parametrically) and '
+           'the str methods themselves are CPython\'s; sugar\'s wrappers around them are proved (parametrically and per method) and '
            'compared Python-against-Python',
            'modelled: BioSeq.__init__ (upper), __len__/__eq__/__add__/__iadd__/__radd__/__setitem__, _getitem int/slice path with '
            'nogaps/adj, gc, countall; BioBasket._getitem/__setitem__; _BioSeqStr/_BioBasketStr delegation (sugar/core/seq.py)',
            'collections.Counter modelled as a finite map byte -> nat with pointwise addition',
-           'round 6: str.count/find/rfind/index/rindex/startswith/endswith (with start/end), replace (with count), lower/upper/swapcase, '
-           'isupper/islower, strip/lstrip/rstrip, center/ljust/rjust are modelled as Gallina list functions (ASCII) and compared with '
-           'CPython through the BioSeq.str wrappers on every case; the remaining .str methods stay parametric',
+           'round 6/7: every method of the namespace (count/find/rfind/index/rindex/startswith/endswith with start/end and tuples, replace, '
+           'lower/upper/swapcase, isupper/islower/isalpha/isascii, strip family, center/ljust/rjust, removeprefix/removesuffix, '
+           'split/rsplit/splitlines, encode on ASCII, maketrans+translate) is modelled as a Gallina list function (ASCII) and compared '
+           'with CPython through the BioSeq.str wrappers on every case; that these functions ARE CPython\'s is tested, not proved',
            'copy.copy / copy.deepcopy / pickle / BioSeq.copy / BioBasket.copy are modelled as value duplication (DDup); that the Python '
            'objects really are independent is what the object-store stream tests',
            'FeatureList.get (sugar/core/fts.py, outside the anchored file) is modelled as ft_get for str arguments only']
@@ -2609,7 +2618,7 @@ def _raw(BioSeq, data):
     return s
 
 
-LEVEL_TEXT = ('Machine-checked Coq theorems (57, all closed under the global context), for every list/str and every integer or None bound: '
+LEVEL_TEXT = ('Machine-checked Coq theorems (67, all closed under the global context), for every list/str and every integer or None bound: '
               'CPython slice normalisation (PySlice_AdjustIndices) yields firstn/skipn of the clamped bounds for contiguous slices, the '
               'slice-length formula and the element law r[k] = s[start + k*step] for every step, s[::-1] = rev s, s[:k] + s[k:] = s, the '
               'negative-index law; BioSeq indexing/slicing, len, +, +=, right + equal the str operation on the residue string; == against any '
@@ -2626,7 +2635,7 @@ LEVEL_TEXT = ('Machine-checked Coq theorems (57, all closed under the global con
               'none; str_index; str_count: one letter = the letter count, "" = len+1, 0 iff find = -1; str_replace: letter-for-letter = map, '
               'len law len + count*(len new - len old), identity when absent or count 0; str_strip; str_just: padding sides of center differ '
               'by at most one; str_tailmatch; gc_through_str: BioSeq.gc counts through .str.count); edit_like_str / query_like_str: each of '
-              'the 15 modelled edits and 13 queries through the BioSeq code path is the str operation on the residue string; HISTORY '
+              'the modelled edits and queries through the BioSeq code path is the str operation on the residue string; HISTORY '
               'theorem store_history (induction over arbitrary step lists): after any history of edits, queries, duplications and '
               'basket-level edits over a store of objects, the residue strings are the fold of the corresponding str/list operations and '
               'ids follow duplication; store_frame / dup_independent: an object changes only through steps that address it, a duplicate '
@@ -2636,6 +2645,18 @@ LEVEL_TEXT = ('Machine-checked Coq theorems (57, all closed under the global con
               'hold lower case is the same subscript of its residue string upper-cased by the constructor, id kept; store_slice and the '
               'extended store_step / store_history: slicing steps (DSlice: new object appended; DSliceIn: inplace=True) are part of the '
               'object-store histories (ids follow the source; pair_step folds residues and ids together). '
+              'The remaining namespace methods as list functions with proved characterisations (all unbounded, by induction): '
+              'str_remove_affix (removeprefix/removesuffix cut exactly one copy, nothing otherwise); str_predicates (isalpha = non-empty '
+              'and letters only; isascii; on letters-only strings isupper/islower are the fixpoints of upper/lower); str_split_sep '
+              '(split and rsplit with a separator and ANY maxsplit: join(sep, pieces) = s, at least one and at most maxsplit+1 pieces, '
+              'empty separator = ValueError); str_split_ws (split(): pieces non-empty, free of white space, concatenating to the '
+              'non-white-space characters); str_splitlines (keepends: concat = s; otherwise no piece holds a line break and concat = the '
+              'other characters); str_maketrans (ValueError iff lengths differ, z deletes, unmapped kept, LAST duplicate key wins, '
+              'translate distributes over +); str_tailmatch_tuple; edit_like_str / query_like_str now cover 18 edits and 21 queries. '
+              'GAP-AWARE ANY STEP: gap_any_step_as_is (start/stop are mapped to columns by adj - five cases - and the step is applied '
+              'to columns; result upper-cased); gap_reverse_whole (for [::-1] "same residues as the degapped slice" survives); '
+              'gap_step_refuted: it does NOT survive in general - witnesses "A-CG".sl(gap="-")[::2] = "AC" (degapped "AG") and, with no '
+              'gap at all, "ACG".sl(gap="-")[:-100:-1] = "GC" ("ACG"[:-100:-1] = "GCA"). '
               'The model is tied to sugar by '
               'differential testing (exhaustive box over {A,C,-}^<=5 x {None,-7..7}^3 in the thorough tier, random cases, 600 multi-step '
               'histories on shared objects and 270 object-store histories with duplicates in the quick tier) and the .str methods are '
